@@ -71,6 +71,11 @@ def cases(tier):
     for dday in days:
         out.append({"k": "seconds", "day": list(dday)})
     out.append({"k": "entity-roundtrip"})
+    from checks import C12
+    for i in range(len(C12.FAULTS)):
+        out.append({"k": "fault-then-set", "i": i, "seed": "mini"})
+        if tier == "thorough" or any(n in ("b2", "df", "mtag", "foreign", "foreign_src", "rdim", "da2") for n in C12.FAULTS[i]["needs"]):
+            out.append({"k": "fault-then-set", "i": i, "seed": "rich"})
     for via in ("same-handle", "other-handle"):
         for dt in (0, 1):
             out.append({"k": "force-then-set", "via": via, "dt": dt})
@@ -331,7 +336,71 @@ def run_force_then_set(case, r):
         env.rm(path)
 
 
+def run_fault_then_set(case, r):
+    """a refused call (fault catalogue of C12) must not disturb the timestamp machinery: afterwards every listed
+    attribute change still stamps its own entity with the current time and nothing else"""
+    from checks import C12
+    fa = C12.FAULTS[case["i"]]
+    seed = case["seed"]
+    m = explorer.seed_model(seed)
+    s = O.Session(build=explorer.SEEDS[seed], auto_ts=True)
+    try:
+        ctx = C12.Ctx(s.f)
+        if any(getattr(ctx, n) is None for n in fa["needs"]):
+            return
+        env.CLOCK.advance(3)
+        try:
+            fa["fn"](ctx)
+            return                  # accepted: outside this scenario
+        except Exception:
+            pass
+        r.transitions += 1
+        # Property setters do not stamp even without a preceding refusal (recorded finding of the history scenario)
+        sets = [op for op in O.enabled(m, THIN) if op[0] == "set" and op[3] is not None
+                and listed(op, explorer.target_kind(m, op)) and explorer.target_kind(m, op) != "Property"]
+        before = stamps(walker.walk(s.f, core=True))
+        last_set = {}
+        for op in sets:
+            tk = explorer.target_kind(m, op)
+            try:
+                O.model_apply(m, op)
+            except O.Refused:
+                continue
+            env.CLOCK.advance(3)
+            now = env.CLOCK()
+            try:
+                O.impl_apply(s, op, None)
+            except Exception:
+                return              # C02's business
+            r.evals += 1
+            r.nontrivial += 1
+            r.transitions += 1
+            tgt = s.resolve(op[1])
+            last_set[tgt.id] = now
+            if tgt.updated_at != now:
+                r.viol("C19|after-refused:%s|%s|%s|own-updated_at-not-set" % (fa["site"], explorer.opsig(op), tk),
+                       "after the refused %s (%s), %s left updated_at of the changed %s at %r (clock %r)" % (
+                           fa["site"], fa["cls"], json.dumps(op, ensure_ascii=False), tk, tgt.updated_at, now), {"fault": [fa["site"], fa["cls"]]})
+                return
+        after = stamps(walker.walk(s.f, core=True))
+        for eid, (kind, c0, u0) in before.items():
+            if eid not in after:
+                continue
+            exp = (c0, last_set.get(eid, u0))
+            if after[eid][1:] != exp:
+                r.viol("C19|after-refused:%s|%s|stamps-differ-after-the-changes" % (fa["site"], kind),
+                       "after the refused %s and one change per listed attribute, a %s has stamps %r, expected %r" % (
+                           fa["site"], kind, after[eid][1:], exp), {})
+                return
+        r.traces += 1
+    finally:
+        s.close()
+
+
 def run_case(case):
     r = R()
+    if case["k"] == "fault-then-set":
+        run_fault_then_set(case, r)
+        return r
     {"force-then-set": run_force_then_set, "hist": run_hist, "roundtrip": run_roundtrip, "seconds": run_seconds, "entity-roundtrip": run_entity}[case["k"]](case, r)
     return r
